@@ -402,7 +402,7 @@ def c16_temp_left_after_error(case, rr):
     if not v or any(x["kind"] != "temp-file-left" for x in v):
         return False
     routes = obs.get("routes") or {}
-    return any(val is None for val in routes.values())
+    return any(val is None for val in routes.values()) or bool(obs.get("fix_routes_failed"))
 
 
 @matcher
